@@ -23,8 +23,14 @@ Open Scope Q_scope.
    needs inner_flex_basis >= 0.  Conclusion: the loop returns (no fuel exhaustion), every item is frozen, the static
    fields are untouched, and either the outer targets plus gaps fill M exactly, or (growing) every item with a non-zero
    grow factor has a max size and sits at effmax, or (shrinking) every item with non-zero shrink factor and non-zero
-   inner flex basis (i.e. non-zero scaled shrink factor) sits at effmin. *)
-Theorem C07_exhausted : forall (items : list Item) (gap M : XQ),
+   inner flex basis (i.e. non-zero scaled shrink factor) sits at effmin.
+   PARTIAL (renamed in the audit, wave 5c).  Missing with respect to the property text: (1) the premise hyp_inner =
+   clamp(flex basis) is not granted by the property; it holds for items built from styles exactly in `pb_class`
+   (C07_hyp_is_clamped_basis) and fails for items whose max size is below padding + border (C07_hyp_is_clamped_basis_refuted);
+   (2) the statement is about the loop's outer TARGET sizes; the sizes the items are then laid out at can differ
+   (C07_exhausted_laid_out_sizes_refuted, known finding F-C07-pbfloor), so "the items' outer main sizes plus gaps fill the inner
+   main size" is proved for targets only. *)
+Theorem C07_exhausted_partial : forall (items : list Item) (gap M : XQ),
   finite gap -> finite M -> (forall c, In c items -> exh_prem c) ->
   let gaps := val (sum_axis_gaps gap (zlen items)) in
   let hyp_total := gaps + qsum qho items in
@@ -286,8 +292,9 @@ Proof.
   - vm_compute. repeat split; reflexivity.
 Qed.
 
-(* ---- C07_exhausted with that premise discharged: items built from the children's styles by determine_flex_base_size *)
-Theorem C07_exhausted_from_styles : forall (k : Constants XQ) avail (children : list (Child XQ)) (gap M : XQ),
+(* ---- C07_exhausted_partial with that premise discharged: items built from the children's styles by
+   determine_flex_base_size.  Still PARTIAL: target sizes, items in pb_class only (see C07_exhausted_partial) *)
+Theorem C07_exhausted_from_styles_partial : forall (k : Constants XQ) avail (children : list (Child XQ)) (gap M : XQ),
   let items := map (fun c => determine_flex_base_size k avail c (child_info k c)) children in
   finite gap -> finite M ->
   (forall c, In c children -> base_fin k avail c (child_info k c) /\ pb_class k avail c (child_info k c)) ->
@@ -376,7 +383,10 @@ Proof.
 Qed.
 
 (* the statement of C07_order_no_overlap is false by design once a relative inset is present (it is added to the location
-   but not to the accumulator): the premise `inset = 0` cannot be dropped.  Two 20-wide items, the first shifted by 30. *)
+   but not to the accumulator): the premise `inset = 0` cannot be dropped.  Two 20-wide items, the first shifted by 30.
+   The property text does not exclude relatively positioned items, so this is a restriction of the DOMAIN of
+   C07_order_no_overlap (and of the oracle, whose generator produces no relative insets); the witness is replayed on the
+   implementation by `vh c07 probe` on every run (evidence key inset_witness: x = 30 and x = 20, as here). *)
 Definition w_inset_items : list Item :=
   [mkItem (fq 20) (fq 20) (fq 20) (fq 20) (fq 0) None (fq 0) (fq 0) (fq 0) (fq 0) false false (fq 30)
           false (fq 20) (fq 20) (fq 0) (fq 0);
@@ -454,7 +464,101 @@ Proof.
   - vm_compute. reflexivity.
 Qed.
 
-Print Assumptions C07_exhausted.
+
+(* ---------------------------------------------------------------------------------------------------------------------
+   Computed instances of the premises (audit, wave 5c) *)
+
+(* C07_lines_fit / _greedy / _tests_any_num: lines of 2, 2 and 1 items; the container's max size overrides MaxContent *)
+Example C07_example_lines :
+  lines_available (Some (fq 100)) (Some (fq 30)) (@MaxContent XQ) = Definite (fq 100) /\
+  collect_flex_lines (fun x : XQ => x) true (Some (fq 100)) (Some (fq 30)) MaxContent (fq 10) [fq 40; fq 40; fq 45; fq 45; fq 40]
+  = [[fq 40; fq 40]; [fq 45; fq 45]; [fq 40]].
+Proof. vm_compute. split; reflexivity. Qed.
+(* C07_wrap_single_line_when_fits *)
+Example C07_example_wrap_fits :
+  lines_available None None (Definite (fq 100)) = Definite (fq 100) /\
+  qsum (fun c => val ((fun x : XQ => x) c)) [fq 40; fq 50] + val (sum_axis_gaps (fq 10) (zlen [fq 40; fq 50])) <= 100 /\
+  collect_flex_lines (fun x : XQ => x) true None None (Definite (fq 100)) (fq 10) [fq 40; fq 50] = [[fq 40; fq 50]].
+Proof. vm_compute. repeat split; try reflexivity. intro; discriminate. Qed.
+(* C07_order_no_overlap_auto_margins: 3 items, gap 5, inner 100, free space 20, two auto margins of 10 each *)
+Definition ex_auto_items : list Item :=
+  [wi 20 20 20 20 0 None 0 0 1 2 false false 23; wi 30 30 30 30 0 None 0 0 0 3 true false 33; wi 10 10 10 10 0 None 0 0 4 0 false true 14].
+Example C07_example_auto_margins :
+  (forall c, In c ex_auto_items -> aprem c) /\
+  0 < val (sub (fq 100) (add (sum_axis_gaps (fq 5) (zlen ex_auto_items)) (fsum (map fi_outer_target ex_auto_items)))) /\
+  (0 < count_auto ex_auto_items)%Z /\
+  let items' := distribute_remaining_free_space ex_auto_items (fq 5) (fq 100) (Some AC_Center) false in
+  map (fun c => (Qred (val (fi_margin_start c)), Qred (val (fi_margin_end c)))) items' = [(1, 2); (10, 3); (4, 10)] /\
+  map (fun x => Qred (val x)) (line_positions (fq 0) false (combine items' [fq 20; fq 30; fq 10])) = [1; 33; 70].
+Proof.
+  split; [|split; [|split]].
+  - intros c [<-|[<-|[<-|[]]]]; unfold aprem; cbn; repeat split; qdec.
+  - vm_compute. reflexivity.
+  - reflexivity.
+  - vm_compute. split; reflexivity.
+Qed.
+(* C07_every_iteration_freezes: 3 -> 2 -> 1 unfrozen items *)
+Example C07_example_iteration_freezes :
+  let k := mkCtx (fq 0) (Some (fq 100)) (fq 50) (fq 50) true false in
+  let items := map (freeze_inflexible false true false) ex_grow_items in
+  forallb fi_frozen items = false /\ cnt items = 3%nat /\ cnt (loop_body k items) = 2%nat /\ cnt (loop_body k (loop_body k items)) = 1%nat.
+Proof. vm_compute. repeat split; reflexivity. Qed.
+(* C07_hyp_is_clamped_basis / C07_exhausted_from_styles_partial: row 120, gap 5; A{basis 80, min 70, shrink 1}
+   B{basis 60, max 55, padding 20 (<= max: pb_class through the Some branch), shrink 2} C{basis 10, shrink 0}; two rounds of the
+   loop; B ends at 30 >= its padding *)
+Definition ex_style_children : list (Child XQ) :=
+  [w_leaf 80 (Length (fq 70)) Auto 0 1; w_leaf 60 (Length (fq 0)) (Length (fq 55)) 20 2; w_leaf 10 (Length (fq 0)) Auto 0 0].
+Definition ex_k := w_k false 120 5.
+Definition ex_style_items := map (fun c => determine_flex_base_size ex_k (w_avail 120) c (child_info ex_k c)) ex_style_children.
+Example C07_example_from_styles :
+  (forall c, In c ex_style_children -> base_fin ex_k (w_avail 120) c (child_info ex_k c) /\ pb_class ex_k (w_avail 120) c (child_info ex_k c)) /\
+  (forall c, In c ex_style_items -> shrink_ok c) /\
+  120 < val (sum_axis_gaps (fq 5) (zlen ex_style_items)) + qsum qho ex_style_items /\
+  map (fun c => (Qred (qb c), Qred (qib c), Qred (qh c))) ex_style_items = [(80, 80, 80); (60, 40, 55); (10, 10, 10)] /\
+  option_map (map (fun c => (Qred (val (fi_target c)), fi_frozen c))) (resolve_flexible_lengths ex_style_items (fq 5) (Some (fq 120)))
+    = Some [(70, true); (30, true); (10, true)].
+Proof.
+  split; [|split; [|split; [|split]]].
+  - intros c [<-|[<-|[<-|[]]]]; (split; [unfold base_fin, fin_rect, nonneg_rect; vm_compute; repeat split; try exact I; intro; discriminate
+                                         | unfold pb_class; vm_compute; try exact I; left; intro; discriminate]).
+  - intros c [<-|[<-|[<-|[]]]]; unfold shrink_ok; vm_compute; repeat split; try (intro; discriminate); first [left; reflexivity | right; intro; discriminate].
+  - vm_compute. reflexivity.
+  - vm_compute. reflexivity.
+  - vm_compute. reflexivity.
+Qed.
+(* C07_order_no_overlap_lines / C07_main_axis_lines_are_collected_lines: main_axis_lines = Some, lines of 2, 2, 1 *)
+Definition ex_wrap_k := w_k true 100 10.
+Definition ex_wrap_items : list (Work XQ) :=
+  map (fun c => let ci := child_info ex_wrap_k c in mkWork c ci (determine_flex_base_size ex_wrap_k (w_avail 100) c ci)) ex_wrap_children.
+Example C07_example_main_axis_lines :
+  option_map (map (map (fun w => (Qred (val (fi_target (w_item w))), fi_frozen (w_item w))))) (main_axis_lines ex_wrap_k (w_avail 100) ex_wrap_items)
+  = Some [[(40, true); (40, true)]; [(40, true); (40, true)]; [(40, true)]].
+Proof. vm_compute. reflexivity. Qed.
+(* C07_flex_base_size_cases B and E, C07_aspect_ratio_basis (20 * 3/2 = 30), C07_automatic_minimum third case *)
+Definition w_aspect_leaf : Child XQ :=
+  mkChild (Leaf.mkStyle DFlex Relative BorderBox (mkPoint Visible Visible) (fq 0)
+                        (mkSize Auto (Length (fq 20))) (mkSize Auto Auto) (mkSize Auto Auto) (Some (Fin (3 # 2)))
+                        w_zero_rect_lpa (w_rect_lp 0) (w_rect_lp 0))
+          Auto (fq 0) (fq 1) None
+          (fun inp => mkSize (opt_unwrap_or (width (known_dimensions inp)) (fq 7)) (opt_unwrap_or (height (known_dimensions inp)) (fq 0))).
+Definition w_content_leaf : Child XQ :=
+  mkChild (Leaf.mkStyle DFlex Relative BorderBox (mkPoint Visible Visible) (fq 0)
+                        (mkSize Auto (Length (fq 20))) (mkSize Auto Auto) (mkSize Auto Auto) None
+                        w_zero_rect_lpa (w_rect_lp 0) (w_rect_lp 0))
+          Auto (fq 0) (fq 1) None
+          (fun inp => mkSize (opt_unwrap_or (width (known_dimensions inp)) (fq 7)) (opt_unwrap_or (height (known_dimensions inp)) (fq 0))).
+Example C07_example_base_size_cases :
+  let k := w_k false 100 0 in
+  let avail := w_avail 100 in
+  let ca := w_aspect_leaf in let cia := child_info k ca in let ea := base_env k avail ca cia in
+  let cc := w_content_leaf in let cic := child_info k cc in let ec := base_env k avail cc cic in
+  be_style_basis ea = None /\ option_map (fun x => Qred (val x)) (s_main (k_row k) (ci_size cia)) = Some 30 /\
+  Qred (val (flex_base_size k avail ca cia ea)) = 30 /\
+  be_style_basis ec = None /\ s_main (k_row k) (ci_size cic) = None /\ Qred (val (flex_base_size k avail cc cic ec)) = 7 /\
+  Qred (val (resolved_minimum_main_size k ca cia ea)) = 7 /\ Qred (val (resolved_minimum_main_size k cc cic ec)) = 7.
+Proof. vm_compute. repeat split; reflexivity. Qed.
+
+Print Assumptions C07_exhausted_partial.
 Print Assumptions C07_effective_bounds.
 Print Assumptions C07_loop_terminates.
 Print Assumptions C07_every_iteration_freezes.
@@ -477,7 +581,7 @@ Print Assumptions C07_aspect_ratio_basis.
 Print Assumptions C07_automatic_minimum.
 Print Assumptions C07_hyp_is_clamped_basis.
 Print Assumptions C07_hyp_is_clamped_basis_refuted.
-Print Assumptions C07_exhausted_from_styles.
+Print Assumptions C07_exhausted_from_styles_partial.
 Print Assumptions C07_order_no_overlap_lines.
 Print Assumptions C07_main_axis_lines_are_collected_lines.
 Print Assumptions C07_lines_cross_stacked.
